@@ -93,10 +93,10 @@ func resolveBuf(p *Prog, r *Report, rule string) *bufInfo {
 		r.Anchor(rule, "buffer.Buffer.ServeHTTP: response recorder handed to the wrapped handler", "the writer argument is not a freshly allocated recorder")
 		return nil
 	}
-	// the copy routine: method of Buffer returning *http.Request
-	for _, m := range p.Methods(b.typ) {
-		if m.Signature.Results().Len() == 1 && typeIs(m.Signature.Results().At(0).Type(), pkgHTTP, "Request") {
-			b.copyFn = m
+	// the copy routine: the module function (method or not) called from ServeHTTP that returns a *http.Request
+	for _, c := range Calls(b.serve) {
+		if f := c.Common().StaticCallee(); f != nil && p.InModule(f) && f.Signature.Results().Len() == 1 && typeIs(f.Signature.Results().At(0).Type(), pkgHTTP, "Request") {
+			b.copyFn = f
 		}
 	}
 	// body cell: where result #0 of multibuf.New is stored (captured variable) or the value itself
@@ -202,11 +202,12 @@ func runC06(p *Prog, r *Report) {
 			}
 		}
 	}
+	pReq, pBody, pSize := copyParams(b.copyFn)
 	for i, c := range copies {
 		a := c.Common().Args
-		okO := len(a) == 4 && stripConv(a[1]) == ssa.Value(b.req)
-		okB := len(a) == 4 && b.isBody(a[2])
-		okS := len(a) == 4 && sizeCall != nil && resultValue(sizeCall, 0)(a[3])
+		okO := pReq >= 0 && pReq < len(a) && stripConv(a[pReq]) == ssa.Value(b.req)
+		okB := pBody >= 0 && pBody < len(a) && b.isBody(a[pBody])
+		okS := pSize >= 0 && pSize < len(a) && sizeCall != nil && resultValue(sizeCall, 0)(a[pSize])
 		r.Sites++
 		r.Check(okO && okB && okS, "C06.R1", fmt.Sprintf("%s: copy #%d is made from the original request, the buffered body and its size", sn, i+1), p.InstrPos(c),
 			"copyRequest(req, body, body.Size())", fmt.Sprintf("copy arguments: original request=%v, buffered body=%v, its Size()=%v (copying from a previous copy or another length breaks 'identical on every attempt')", okO, okB, okS))
@@ -265,9 +266,32 @@ func runC06(p *Prog, r *Report) {
 	r.Check(okNew && okEdge, "C06.R4", sn+": whole body buffered before the first attempt", p.InstrPos(b.newBody), "multibuf.New(req.Body, ...) succeeded on every path to the handler", "the handler can run without the original body having been fully buffered by multibuf.New(req.Body)")
 }
 
+// copyParams: positions of the request, body and size parameters of the copy routine (by type).
+func copyParams(fn *ssa.Function) (req, body, size int) {
+	req, body, size = -1, -1, -1
+	for i, prm := range fn.Params {
+		switch {
+		case typeIs(prm.Type(), pkgHTTP, "Request"):
+			req = i
+		case typeIs(prm.Type(), "io", "ReadCloser") || typeIs(prm.Type(), "io", "Reader") || typeIs(prm.Type(), "github.com/mailgun/multibuf", "MultiReader"):
+			body = i
+		default:
+			if bt, ok := prm.Type().Underlying().(*types.Basic); ok && bt.Kind() == types.Int64 {
+				size = i
+			}
+		}
+	}
+	return
+}
+
 func c06CopyRoutine(p *Prog, r *Report, b *bufInfo) {
 	fn := b.copyFn
-	cn := "buffer.(*Buffer)." + fn.Name()
+	cn := "buffer copy routine " + fn.Name()
+	pReq, pBody, pSize := copyParams(fn)
+	if pReq < 0 || pBody < 0 || pSize < 0 {
+		r.Anchor("C06.R2", cn+": request / body / size parameters", "cannot identify the parameters by type")
+		return
+	}
 	var o *ssa.Alloc
 	for _, ret := range Returns(fn) {
 		if al, ok := ReturnOperand(ret, 0).(*ssa.Alloc); ok {
@@ -278,7 +302,7 @@ func c06CopyRoutine(p *Prog, r *Report, b *bufInfo) {
 		r.Fail("C06.R2", cn+": returns a new request object", p.FuncPos(fn), "the copy routine does not return a freshly allocated request")
 		return
 	}
-	orig := fn.Params[1]
+	orig := fn.Params[pReq]
 	stores := map[string][]*ssa.Store{}
 	for _, blk := range fn.Blocks {
 		for _, in := range blk.Instrs {
@@ -331,7 +355,7 @@ func c06CopyRoutine(p *Prog, r *Report, b *bufInfo) {
 	}
 	r.Check(okH, "C06.R2", cn+": headers copied into a fresh map", p.FuncPos(fn), "o.Header = make(http.Header); CopyHeaders(o.Header, req.Header)", "the copy does not get a fresh header map filled from the original's headers on every path")
 	okCL := false
-	if st := one("ContentLength"); st != nil && paramIndex(fn, stripConv(st.Val)) == 3 {
+	if st := one("ContentLength"); st != nil && paramIndex(fn, stripConv(st.Val)) == pSize {
 		okCL = true
 	}
 	r.Check(okCL, "C06.R2", cn+": ContentLength = the buffered size, unconditionally", p.FuncPos(fn), "o.ContentLength = bodySize on every path", "ContentLength is not set to the buffered size on every path (an empty chunked body keeps ContentLength -1)")
@@ -352,10 +376,10 @@ func c06CopyRoutine(p *Prog, r *Report, b *bufInfo) {
 	r.Check(okTE, "C06.R2", cn+": TransferEncoding cleared, unconditionally", p.FuncPos(fn), "o.TransferEncoding = []string{} on every path", "TransferEncoding is not cleared on every path (the handler would still see 'chunked')")
 	// Body from the buffered reader when non-nil
 	okB := false
-	bodyParam := fn.Params[2]
+	bodyParam := fn.Params[pBody]
 	for _, st := range stores["Body"] {
 		e := BuildExpr(p, st.Val, nil).String()
-		if strings.Contains(e, "io.NopCloser(p2)") || stripConv(st.Val) == ssa.Value(bodyParam) {
+		if strings.Contains(e, fmt.Sprintf("io.NopCloser(p%d)", pBody)) || stripConv(st.Val) == ssa.Value(bodyParam) {
 			for _, t := range NilTests(fn, func(v ssa.Value) bool { return stripConv(v) == ssa.Value(bodyParam) }) {
 				if OnlyViaEdge(fn, st, t.NonNil) {
 					okB = true
@@ -905,7 +929,34 @@ func runC15(p *Prog, r *Report) {
 		}
 	}
 	if chk == nil {
-		r.Fail("C15.R1", sn+": declared length checked first", p.FuncPos(fn), "ServeHTTP does not call a declared-length check on the request")
+		// the check may be written inline: the handler (and the buffering) must be unreachable on every
+		// edge implying ContentLength > max, and that edge must answer with MaxSizeReachedError and return
+		want := ParseLin("fld(p2).ContentLength - fld(p0).maxRequestBodyBytes", ">")
+		okInline := false
+		for _, e := range edgesImplying(p, fn, want) {
+			other := Edge{e.B, 1 - e.K}
+			ifi0 := e.B.Instrs[len(e.B.Instrs)-1]
+			onEdge := Reach(fn, ifi0, nil, func(x Edge) bool { return !(x.B == other.B && x.K == other.K) })
+			if !onEdge[b.handler] && !onEdge[b.newBody] {
+				ifi := e.B.Instrs[len(e.B.Instrs)-1]
+				isEH := func(in ssa.Instruction) bool {
+					cc, ok := isErrHandlerServe(in)
+					if !ok {
+						return false
+					}
+					for _, op := range nonNilOperands(cc.Args[2]) {
+						if al, ok := op.(*ssa.Alloc); ok && typeIs(al.Type(), "github.com/mailgun/multibuf", "MaxSizeReachedError") {
+							return true
+						}
+					}
+					return false
+				}
+				if ReturnReachableAvoiding(fn, ifi, isEH, func(x Edge) bool { return !(x.B == other.B && x.K == other.K) }) == nil {
+					okInline = true
+				}
+			}
+		}
+		r.Check(okInline, "C15.R1", sn+": over-limit declared length never reaches the handler", p.FuncPos(fn), "inline check: on the ContentLength > max edge the size error is answered and neither buffering nor handler is reachable", "ServeHTTP neither calls a declared-length check nor tests ContentLength against the maximum before buffering")
 	} else {
 		okE := false
 		for _, t := range NilTests(fn, func(v ssa.Value) bool { return v == ssa.Value(chk) }) {
